@@ -1,6 +1,7 @@
 PROP = {
     "level": "fault_enumeration",
-    "stages": [("kill", "c04", False, ())],
+    "stages": [("kill", "c04", False, ()), ("e2e", "c04e2e", False, ())],
+    "binaries": ("./cmd/thru", "./cmd/thruserv"),
     "assumptions": [
         "crash = SIGKILL of a real receiver process at hook-chosen points (and sender-side aborts); power loss (torn pages, reordered writes below the page cache) is out of reach",
         "the resumed run fetches the same unchanged source tree (same ids, sizes, chunk size) into the same output directory",
